@@ -281,7 +281,7 @@ def decode_files(work, sc, pattern="out*.nc"):
                 pv["release_time"], _ = _abs_time(d.variables["release_time"], d.variables["release_time"][:])
             if "src" in d.variables:
                 pv["src"] = [int(x) for x in np.ma.filled(d.variables["src"][:], NEG)]
-            files.append(dict(idx=int(m.group(1)) if m else -1, recs=recs, ninst=ninst, sumcount=sumc, ref=ref,
+            files.append(dict(idx=int(m.group(1)) if m else -1, name=list(os.path.basename(fn)), recs=recs, ninst=ninst, sumcount=sumc, ref=ref,
                               pv_release_time=pv.get("release_time", []), pv_src=pv.get("src", []),
                               npart=int(len(d.dimensions["particle"])) if "particle" in d.dimensions else 0))
     return files
